@@ -377,7 +377,11 @@ def pair_part(ctx, fp0, focus=None):
         # sessions that REUSE objects (one kernel array, one raster, one surface); reference: every call with fresh objects
         rcalls = [c11_pairs.unshared(e, n) for n, e in enumerate(list(reversed(sal)) + list(reversed(sal)))]
         add("shared_reference", 1, rcalls)
-        designed = [e for sess in c11_pairs.shared_sessions(sal) for e in sess]
+        designed = []
+        for sess in c11_pairs.shared_sessions(sal):
+            sess = [dict(e) for e in sess]
+            sess[-1]["flush"] = True              # deferred Dask results are computed when their session ends
+            designed += sess
         sfs = {e["f"] for e in sal}
         scst = dict(Funcs=sfs, Gens=set(), Unseeded=set(), Params={e["p"] for e in sal} | {"p0"}, Sigs={e["sig"] for e in sal},
                     Alphabet=tla_alphabet(sal), Threads=1, MAXLEN=12, MUT="none")
@@ -386,9 +390,13 @@ def pair_part(ctx, fp0, focus=None):
         for k, fp in enumerate(ctx.simulate("History", dict(spec="Spec", constants=scst), "shared_object_sessions",
                                             num=ctx.pick(4, 24), depth=20)):
             h = parse_hist_state(open(fp).read())
+            if sim:
+                sim[-1]["flush"] = True
             for x in h:
                 if x in skey:
-                    e = dict(skey[x], share=skey[x]["share"] + "#%d" % k)
+                    e = dict(skey[x])
+                    if e.get("share"):
+                        e["share"] = e["share"] + "#%d" % k
                     if e.get("shared_kernel"):
                         e["shared_kernel"] = dict(e["shared_kernel"], id="K#s%d" % k)
                     sim.append(e)
@@ -430,6 +438,13 @@ def pair_part(ctx, fp0, focus=None):
     if missing:
         raise core.MachineryError("no reference for %s" % missing[:5])
     cases = [to_case(r, cache, by_c) for r in results]
+    for kind, case in zip(kinds, cases):
+        if kind.startswith("shared"):
+            # deferred Dask results are computed (and their kernels JIT-compiled) at the end of a session, after other calls:
+            # the step-level JIT expectations (drift only) do not apply to these processes
+            case["init"]["jit"] = []
+            for e in case["events"]:
+                e["jit"] = []
     v = ctx.judge("History_Trace", cases, name="one_parameter_pairs", stateful=True, workers=2, parallel=2)
     handle(ctx, results, cases, v, kinds)
     ctx.extra["one_parameter_alphabet"] = {"functions": len(fs), "calls": len(ents), "pairs": len(ents) - len(fs),
